@@ -329,14 +329,14 @@ func ChromaticIndex(g Graph) (chromaticIndex int, colouredEdges []byte) {
 	if ci == -1 {
 		return -1, nil
 	}
-	n := 0
+	n := g.N()
 	colouringIndex := 0
 	colouredEdges = make([]byte, n*(n-1)/2)
 	index := 0
 	for j := 1; j < n; j++ {
 		for i := 0; i < j; i++ {
 			if g.IsEdge(i, j) {
-				colouredEdges[i] = byte(colouring[colouringIndex] + 1)
+				colouredEdges[index] = byte(colouring[colouringIndex] + 1)
 				colouringIndex++
 			}
 			index++
